@@ -17,7 +17,7 @@ probabilities/rewards); the result is {"chain": [result per step]}.  Log state i
 Equal chain entries reuse the SAME MDP object (optionally with its cached tabular views touched first).
 
 Input representations (case["repr"], all optional): state/action LABELS (ints, strings whose sorted
-order differs from the index order, tuples, falsy values "" () 0), next-state distributions as
+order differs from the index order, tuples, falsy values "" () 0, None as an action and a state label), next-state distributions as
 DictDistribution / deterministic / uniform objects, action containers list vs tuple (persistent
 per-state objects) or ONE shared list object for all states (QuickTabularMDP(actions=[...])), initial
 distribution as object / callable / initial_state=, discount and margin as int, heuristic returning
@@ -36,6 +36,8 @@ def labels(scheme, n, nA):
         return [(i % 2, -i) for i in range(n)], [("a", -a) for a in range(nA)]
     if scheme == "falsy":          # "", (), 0 as state labels; "", 0, () as action labels
         return (["", (), 0] + ["s%d" % i for i in range(3, n)])[:n], (["", 0, ()] + ["a%d" % a for a in range(3, nA)])[:nA]
+    if scheme == "none":           # None as a label: the first action ("wait") and the second state
+        return (["s0", None] + ["s%d" % i for i in range(2, n)])[:n], ([None, "push", "clear"] + ["a%d" % a for a in range(3, nA)])[:nA]
     return list(range(n)), list(range(nA))
 
 
@@ -76,7 +78,7 @@ def build_labeled(mc, rp):
     g = Fraction(mc["gamma"])
     kw = {}
     irep = rp.get("init", "object")
-    if irep == "initial_state" and len(mc["init"]) == 1:
+    if irep == "initial_state" and len(mc["init"]) == 1 and sl[mc["init"][0][0]] is not None:
         kw["initial_state"] = sl[mc["init"][0][0]]
     elif irep == "callable":
         kw["initial_state_dist"] = lambda: init
